@@ -282,7 +282,7 @@ def run(ctx):
     e = t['events'][0]
     e['thr'] = [-1, 0, [1]]          # "reject everything" on a set that has positive pairs: accuracy is not maximal
     e['y'] = [1] * (len(e['y']) - 1) + [-1]
-  sgood = next(t for r, t in spairs if t['events'][0]['strategy'] == 'accuracy')
+  sgood = next(t for r, t in spairs if t['events'][0]['strategy'] == 'accuracy' and len(t['events'][0]['y']) >= 4)
   core.selftest_binding(ctx, *SPEC, sgood, suite_thr_moved, 'C16.accuracy_optimal', 'suite_threshold_moved')
   # refine violations: identify the failing events individually (a trace holds many cases)
   ncal = 0
